@@ -279,12 +279,18 @@ UsedFlagsOK(S) == LET D == Derive(S) IN
 (* C09: every record fits the slot reserved for it, padding is zero                    *)
 (*************************************************************************************)
 FitsOKD(S, D) ==
-    /\ \A o \in D.reach : LET r == S.kf.slots[o] IN
-          KeyActual(r.len, r.voff, r.nxt, r.size) <= r.size /\ r.pad
-    /\ \A o \in D.rvals \cap VSlots(S) : LET r == S.vf.slots[o] IN
-          ValActual(r.len, r.size) <= r.size /\ r.pad
-    /\ \A o \in D.kfs : FreeActual(S.kf.slots[o].size) <= S.kf.slots[o].size /\ S.kf.slots[o].pad
-    /\ \A o \in D.vfs : FreeActual(S.vf.slots[o].size) <= S.vf.slots[o].size /\ S.vf.slots[o].pad
+    /\ \A o \in D.reach : LET r == S.kf.slots[o] IN KeyActual(r.len, r.voff, r.nxt, r.size) <= r.size
+    /\ \A o \in D.rvals \cap VSlots(S) : LET r == S.vf.slots[o] IN ValActual(r.len, r.size) <= r.size
+    /\ \A o \in D.kfs : FreeActual(S.kf.slots[o].size) <= S.kf.slots[o].size
+    /\ \A o \in D.vfs : FreeActual(S.vf.slots[o].size) <= S.vf.slots[o].size
+\* the bytes behind every record (used or free) are zero: what the design writes (write_zero_to_offset);
+\* not demanded by a property by itself (C18 demands determinism, not zeros), so a logged state that
+\* violates it is design drift
+PadOKD(S, D) ==
+    /\ \A o \in D.reach : S.kf.slots[o].pad
+    /\ \A o \in D.rvals \cap VSlots(S) : S.vf.slots[o].pad
+    /\ \A o \in D.kfs : S.kf.slots[o].pad
+    /\ \A o \in D.vfs : S.vf.slots[o].pad
 FitsOK(S) == FitsOKD(S, Derive(S))
 
 (*************************************************************************************)
